@@ -71,6 +71,7 @@ type appRec struct {
 	Pst   st     `json:"pst"`
 	RL    *st    `json:"rl"` // reloaded from storage; nil = error
 	Batch string `json:"batch"`
+	Panic string `json:"panic,omitempty"`
 }
 
 type tamper struct {
@@ -185,7 +186,8 @@ func appendRun(o *hx.Out, seed int, sizes []int) {
 				pst = st{R: hx32(pred.Root), P: hxs(pred.AppendPath), S: pred.Size}
 			}
 			if err := t.Append(v); err != nil {
-				panic(err)
+				o.Put(appRec{K: "app", Seed: seed, N: n, St: stOf(t), PK: 3, Pst: st{P: []string{}}, Batch: "", Panic: "Append:" + err.Error()})
+				return
 			}
 			vals = append(vals, v)
 		}
@@ -204,13 +206,19 @@ func appendRun(o *hx.Out, seed int, sizes []int) {
 	}
 }
 
-func proofCase(seed, n int, ups [][2]int, qs []int, withTampers bool, r *hx.Rng) proofRec {
-	t, _, vals := build(seed, n, nil)
-	applyUps(t, seed, n, vals, ups)
-	rec := proofRec{K: "proof", Seed: seed, Ups: ups, N: n, Qs: qs, Idxs: []uint64{}, Sibs: []string{}, Tampers: []tamper{}}
+func proofCase(seed, n int, ups [][2]int, qs []int, withTampers bool, r *hx.Rng) (rec proofRec) {
+	rec = proofRec{K: "proof", Seed: seed, Ups: ups, N: n, Qs: qs, Idxs: []uint64{}, Sibs: []string{}, Tampers: []tamper{}}
 	if rec.Ups == nil {
 		rec.Ups = [][2]int{}
 	}
+	defer func() {
+		if p := recover(); p != nil {
+			rec.Panic = "setup:" + fmt.Sprint(p)
+			rec.Err = true
+		}
+	}()
+	t, _, vals := build(seed, n, nil)
+	applyUps(t, seed, n, vals, ups)
 	qh := make([][]byte, len(qs))
 	seen := map[int]bool{}
 	for i, q := range qs {
@@ -307,9 +315,15 @@ func applyUps(t *rmt.RegularMerkleTree, seed, n int, vals [][]byte, ups [][2]int
 	}
 }
 
-func updCase(seed, n int, ups [][2]int) updRec {
+func updCase(seed, n int, ups [][2]int) (rec updRec) {
+	rec = updRec{K: "upd", Seed: seed, N: n, Ups: ups, Path: []string{}}
+	defer func() {
+		if p := recover(); p != nil {
+			rec.Panic = "setup:" + fmt.Sprint(p)
+			rec.Err = true
+		}
+	}()
 	t, _, vals := build(seed, n, nil)
-	rec := updRec{K: "upd", Seed: seed, N: n, Ups: ups, Path: []string{}}
 	qh := make([][]byte, len(ups))
 	nd := make([][]byte, len(ups))
 	for i, u := range ups {
@@ -346,6 +360,11 @@ func updCase(seed, n int, ups [][2]int) updRec {
 }
 
 func rwCases(o *hx.Out, seed, n int, idxs []int) {
+	defer func() {
+		if p := recover(); p != nil {
+			o.Put(rwRec{K: "rw", Seed: seed, N: n, Idx: -1, Panic: "setup:" + fmt.Sprint(p)})
+		}
+	}()
 	full, _, vals := build(seed, n, nil)
 	for _, idx := range idxs {
 		rec := rwRec{K: "rw", Seed: seed, N: n, Idx: idx}
